@@ -129,7 +129,9 @@ pub fn make_sig_err(k: Kind, msg: &str) -> SignatureError {
             // the io::ErrorKind varies with the message so that every kind is exercised
             use std::io::ErrorKind::*;
             const KINDS: [std::io::ErrorKind; 10] = [Other, NotFound, PermissionDenied, ConnectionReset, UnexpectedEof, TimedOut, WouldBlock, Interrupted, BrokenPipe, InvalidData];
-            let k = KINDS[(crate::model::crypto::fnv64(m.as_bytes()) % 10) as usize];
+            // "... (n)" at the end of the message selects the kind explicitly; otherwise it follows a digest of the message
+            let explicit = m.strip_suffix(')').and_then(|x| x.rsplit_once('(')).and_then(|(_, n)| n.parse::<usize>().ok());
+            let k = KINDS[explicit.unwrap_or((crate::model::crypto::fnv64(m.as_bytes()) % 10) as usize) % 10];
             SignatureError::IO(std::io::Error::new(k, m))
         }
         Kind::InternalServiceError => SignatureError::InternalServiceError(m.into()),
